@@ -152,6 +152,10 @@ pub struct Pipe {
     pub last_pending_wr: bool,
     /// the reading end has been dropped
     pub reader_gone: bool,
+    /// when a write into a pipe whose reader is gone will start failing (the RST needs a round trip to come back;
+    /// the first such write succeeds locally, exactly as on a real kernel)
+    pub rst_at: Option<Instant>,
+    pub harness_writer: bool,
     /// the first write on this pipe is accepted whole and the first read returns everything that has arrived
     /// (Shadowsocks 2022 requires salt + fixed header in the first read; the properties exempt that boundary)
     pub first_atomic: bool,
@@ -350,7 +354,12 @@ impl World {
         self.faults.push(FaultRule { kind, port, node, remaining: count, fired: 0 });
     }
 
-    pub fn new_pipe(&mut self, ordinal: u64, dir: u64, harness_reader: bool) -> Pipe {
+    /// `harness_writer`: the writing end belongs to the harness. Only harness writers get artificial partial
+    /// writes and spurious write-`Pending`; a socket of the code under test refuses bytes only when the buffer is
+    /// really full, as a kernel does (tokio-websockets' upgrade request is `write_all` without `flush`, which
+    /// over tokio-rustls dead-locks on a mid-request `WouldBlock` – third-party behaviour a real send buffer never
+    /// triggers, so the simulator must not either).
+    pub fn new_pipe(&mut self, ordinal: u64, dir: u64, harness_writer: bool) -> Pipe {
         let mut rng = Prng::derive(self.net_seed, ordinal, dir);
         let mut read_style = self.knobs.read_style;
         if read_style == 255 {
@@ -360,7 +369,9 @@ impl World {
         if write_style == 255 {
             write_style = rng.below(3) as u8;
         }
-        let _ = harness_reader;
+        if !harness_writer {
+            write_style = 0;
+        }
         Pipe {
             inflight: VecDeque::new(),
             inflight_bytes: 0,
@@ -379,6 +390,8 @@ impl World {
             last_pending_rd: false,
             last_pending_wr: false,
             reader_gone: false,
+            rst_at: None,
+            harness_writer,
             first_atomic: false,
         }
     }
